@@ -29,6 +29,12 @@ import (
 //	                       Table.Lookup or to the target it returns                                      -> M1 (c03_round4.go), O2
 //
 // Named anchors are exported API only: route.NewTable, route.NewTableCustom, route.Table.Lookup.
+//
+// Values are followed with c03derives (c03_flow.go): like the shared derives, plus the dynamic call sites of closures
+// and method values handed to a higher-order helper (`hostPatterns(tls, keep)`: the key reaches the comparison through
+// keep's parameter), a deeper interprocedural budget, and - in the normaliser walk of N1 - the fields of small carrier
+// structs of the repository (`requestHost{name, tls}`). A comparison that lives in such a closure runs in the key loop
+// of the helper that calls it (c03EnclosingLoops follows the dynamic sites).
 func init() {
 	register(&propDef{
 		ID:      "C03",
@@ -42,6 +48,7 @@ func init() {
 
 func runC03(c *Ctx) {
 	c03BuildInvoked(c)
+	c03BuildDynSites(c)
 	r := c03FindRoles(c)
 	c03CurRoles = r
 	runC03N1(c, r)
@@ -159,6 +166,12 @@ func c03SitesComplete(fn *ssa.Function) bool {
 	if fn.Name() == "init" || fn.Name() == "main" {
 		return false
 	}
+	return c03NoIfaceReach(fn)
+}
+
+// c03NoIfaceReach: fn cannot be called through an interface: it is no method, or no interface of the repository's
+// invoke sites with a method of this name is implemented by its receiver type.
+func c03NoIfaceReach(fn *ssa.Function) bool {
 	recv := fn.Signature.Recv()
 	if recv == nil || !gInvoked[fn.Name()] {
 		return true
@@ -329,6 +342,12 @@ func c03EnclosingLoops(i ssa.Instruction, depth int) []*loop {
 			out = append(out, c03EnclosingLoops(s, depth+1)...)
 		}
 	}
+	// a closure (function value) handed to a higher-order helper runs where the helper calls its parameter
+	for _, s := range c03DynSites[f] {
+		if s.call.Parent() != f {
+			out = append(out, c03EnclosingLoops(s.call, depth+1)...)
+		}
+	}
 	if p := f.Parent(); p != nil {
 		eachInstr(p, func(j ssa.Instruction) {
 			if mc, ok := j.(*ssa.MakeClosure); ok && mc.Fn == f {
@@ -372,7 +391,7 @@ func c03loopFn(l *loop) *ssa.Function { return l.Head.Parent() }
 // or glob.Compile).
 func c03globPattern(g ssa.Value) ssa.Value {
 	var pat ssa.Value
-	derives(g, func(y ssa.Value) bool {
+	c03derives(g, func(y ssa.Value) bool {
 		call, ok := y.(*ssa.Call)
 		if !ok || call.Call.IsInvoke() {
 			return false
@@ -445,12 +464,12 @@ func c03findSites(r *c03Roles) {
 					}
 					return false
 				}
-				if !derives(v, pred) {
+				if !c03derives(v, pred) {
 					derivesThroughRepo(v, pred)
 				}
 				return
 			}
-			fromReq := func(v ssa.Value) bool { return derives(v, isReqHost) || derivesThroughRepo(v, isReqHost) }
+			fromReq := func(v ssa.Value) bool { return c03derives(v, isReqHost) || derivesThroughRepo(v, isReqHost) }
 			var pat, req ssa.Value
 			var head *ssa.BasicBlock
 			var list ssa.Value
@@ -495,10 +514,11 @@ type c03normKey struct {
 }
 
 type c03normer struct {
-	state map[c03normKey]int // 1 = in progress
-	done  map[c03normKey]c03nf
-	stack []ssa.CallInstruction
-	hops  int
+	state  map[c03normKey]int // 1 = in progress
+	done   map[c03normKey]c03nf
+	fstate map[c03normKey]int // walkField: 1 = in progress
+	stack  []ssa.CallInstruction
+	hops   int
 }
 
 func c03Norm(v ssa.Value) c03nf {
@@ -507,6 +527,15 @@ func c03Norm(v ssa.Value) c03nf {
 }
 
 func c03defaultPortConst(v ssa.Value, withColon bool) bool {
+	if phi, isPhi := v.(*ssa.Phi); isPhi {
+		// port := ":80"; if tls { port = ":443" }
+		for _, e := range phi.Edges {
+			if _, isK := e.(*ssa.Const); !isK || !c03defaultPortConst(e, withColon) {
+				return false
+			}
+		}
+		return len(phi.Edges) > 0
+	}
 	s, ok := constString(v)
 	if !ok {
 		return false
@@ -664,9 +693,18 @@ func (n *c03normer) walk(v ssa.Value, d int) (result c03nf) {
 			return n.walk(x.X, d+1)
 		}
 		return c03nf{}
+	case *ssa.Field:
+		if c03RepoStruct(x.X.Type()) {
+			return n.walkField(x.X, x.Field, d+1)
+		}
+		return c03nf{}
 	case *ssa.UnOp:
 		if x.Op != token.MUL {
 			return c03nf{}
+		}
+		if fa, ok := x.X.(*ssa.FieldAddr); ok && c03RepoStruct(fa.X.Type()) {
+			// a field of a small carrier struct of the repository (`requestHost{name, tls}`): what is put there
+			return n.walkField(fa.X, fa.Field, d+1)
 		}
 		cell := x.X
 		if fv, ok := cell.(*ssa.FreeVar); ok {
@@ -715,19 +753,197 @@ func (n *c03normer) walk(v ssa.Value, d int) (result c03nf) {
 			}
 			return c03nf{}
 		}
-		if top != nil || n.hops >= 6 || !c03SitesComplete(fn) {
+		sites, complete := c03SitesOf(fn)
+		if top != nil || n.hops >= 6 || !complete {
 			return c03nf{}
 		}
-		// the comparison lives in a helper: what every caller passes
+		// the comparison lives in a helper (or in a closure handed to a higher-order helper): what every caller passes
 		var vals []ssa.Value
-		for _, s := range gSites[fn] {
-			if idx < len(s.Common().Args) {
-				vals = append(vals, s.Common().Args[idx])
+		for _, s := range sites {
+			a := c03ArgFor(s, fn, idx)
+			if a == nil {
+				return c03nf{}
 			}
+			vals = append(vals, a)
 		}
 		n.hops++
 		defer func() { n.hops-- }()
 		return n.all(vals, d)
+	}
+	return c03nf{}
+}
+
+// c03RepoStruct: t is (a pointer to) a named struct type declared in the repository.
+func c03RepoStruct(t types.Type) bool {
+	if p, ok := t.Underlying().(*types.Pointer); ok {
+		t = p.Elem()
+	}
+	nt, ok := t.(*types.Named)
+	if !ok || nt.Obj().Pkg() == nil || !strings.HasPrefix(nt.Obj().Pkg().Path(), repoMod) {
+		return false
+	}
+	_, isStruct := nt.Underlying().(*types.Struct)
+	return isStruct
+}
+
+// walkField: what is known about field `field` of struct value (or pointer to struct) sv: the values stored into
+// that field wherever the struct is built - in a local cell, in a constructor whose result it is, at the call sites
+// that pass it as an argument. Flow-insensitive over the stores; an origin that cannot be followed is the raw origin.
+func (n *c03normer) walkField(sv ssa.Value, field int, d int) c03nf {
+	if sv == nil || d > 40 {
+		return c03nf{}
+	}
+	var top ssa.CallInstruction
+	if len(n.stack) > 0 {
+		top = n.stack[len(n.stack)-1]
+	}
+	k := c03normKey{sv, top}
+	if n.fstate == nil {
+		n.fstate = map[c03normKey]int{}
+	}
+	if n.fstate[k] == 1 {
+		return c03nf{lower: true}
+	}
+	n.fstate[k] = 1
+	defer func() { n.fstate[k] = 0 }()
+	join := func(rs []c03nf) c03nf {
+		if len(rs) == 0 {
+			return c03nf{}
+		}
+		out := c03nf{lower: true}
+		for _, r := range rs {
+			out.lower = out.lower && r.lower
+			out.port = out.port || r.port
+		}
+		return out
+	}
+	fromCell := func(a ssa.Value) c03nf {
+		var rs []c03nf
+		refs := a.Referrers()
+		if refs == nil {
+			return c03nf{}
+		}
+		for _, ref := range *refs {
+			switch u := ref.(type) {
+			case *ssa.Store:
+				if u.Addr == a {
+					rs = append(rs, n.walkField(u.Val, field, d+1))
+				}
+			case *ssa.FieldAddr:
+				if u.X != a || u.Field != field {
+					continue
+				}
+				for _, r2 := range *u.Referrers() {
+					if st, ok := r2.(*ssa.Store); ok && st.Addr == ssa.Value(u) {
+						rs = append(rs, n.walk(st.Val, d+1))
+					}
+				}
+			}
+		}
+		return join(rs)
+	}
+	viaCall := func(call *ssa.Call, idx int) c03nf {
+		sc := call.Call.StaticCallee()
+		if sc == nil || !isRepoFn(sc) || len(sc.Blocks) == 0 || n.hops >= 6 {
+			return c03nf{}
+		}
+		n.hops++
+		n.stack = append(n.stack, ssa.CallInstruction(call))
+		defer func() { n.hops--; n.stack = n.stack[:len(n.stack)-1] }()
+		var rs []c03nf
+		eachInstr(sc, func(i ssa.Instruction) {
+			if r, ok := i.(*ssa.Return); ok && idx < len(r.Results) {
+				rs = append(rs, n.walkField(r.Results[idx], field, d+1))
+			}
+		})
+		return join(rs)
+	}
+	switch x := sv.(type) {
+	case *ssa.Alloc:
+		return fromCell(x)
+	case *ssa.UnOp:
+		if x.Op != token.MUL {
+			return c03nf{}
+		}
+		if _, isAlloc := x.X.(*ssa.Alloc); isAlloc {
+			return fromCell(x.X)
+		}
+		if fv, isFV := x.X.(*ssa.FreeVar); isFV {
+			return n.walkField(fv, field, d+1)
+		}
+		return c03nf{}
+	case *ssa.FreeVar:
+		fn := x.Parent()
+		idx := -1
+		for k, w := range fn.FreeVars {
+			if w == x {
+				idx = k
+			}
+		}
+		var cell ssa.Value
+		if p := fn.Parent(); p != nil && idx >= 0 {
+			eachInstr(p, func(i ssa.Instruction) {
+				if mc, ok := i.(*ssa.MakeClosure); ok && mc.Fn == fn && idx < len(mc.Bindings) {
+					cell = mc.Bindings[idx]
+				}
+			})
+		}
+		if a, ok := cell.(*ssa.Alloc); ok {
+			saved := n.stack
+			n.stack = nil
+			defer func() { n.stack = saved }()
+			return fromCell(a)
+		}
+		return c03nf{}
+	case *ssa.Phi:
+		var rs []c03nf
+		for _, e := range x.Edges {
+			rs = append(rs, n.walkField(e, field, d+1))
+		}
+		return join(rs)
+	case *ssa.ChangeType:
+		return n.walkField(x.X, field, d+1)
+	case *ssa.Call:
+		return viaCall(x, 0)
+	case *ssa.Extract:
+		if call, ok := x.Tuple.(*ssa.Call); ok {
+			return viaCall(call, x.Index)
+		}
+		return c03nf{}
+	case *ssa.Parameter:
+		fn := x.Parent()
+		idx := -1
+		for k, p := range fn.Params {
+			if p == x {
+				idx = k
+			}
+		}
+		if idx < 0 {
+			return c03nf{}
+		}
+		if top != nil && top.Common().StaticCallee() == fn {
+			n.stack = n.stack[:len(n.stack)-1]
+			defer func() { n.stack = append(n.stack, top) }()
+			if idx < len(top.Common().Args) {
+				return n.walkField(top.Common().Args[idx], field, d+1)
+			}
+			return c03nf{}
+		}
+		sites, complete := c03SitesOf(fn)
+		if top != nil || n.hops >= 6 || !complete {
+			return c03nf{}
+		}
+		n.hops++
+		defer func() { n.hops-- }()
+		var rs []c03nf
+		for _, s := range sites {
+			a := c03ArgFor(s, fn, idx)
+			if a == nil {
+				return c03nf{}
+			}
+			rs = append(rs, n.walkField(a, field, d+1))
+		}
+		return join(rs)
 	}
 	return c03nf{}
 }
